@@ -450,9 +450,9 @@ Proof.
     + (* b empty as well *)
       assert (length b = O) by lia. destruct b; [|discriminate]. cbn [length skipn firstn app] in *.
       destruct Hdisj as [Hd|Hd]; [|lia].
-      destruct (Hrec hi s [] [] ltac:(repeat split; auto; [apply wf_nil | apply wf_nil | cbn [length]; lia]) ltac:(cbn [length]; lia)) as (r & cf & E & Lr & Wr & V).
+      destruct (Hrec hi s [] [] ltac:(repeat split; auto; try apply wf_nil; cbn [length] in *; lia) ltac:(cbn [length]; lia)) as (r & cf & E & Lr & Wr & V).
       rewrite E. exists r, (carry + cf). cbn [value] in *. repeat split; auto; try lia.
-      rewrite (len_eq hi c A1) in V. lia.
+      rewrite (len_eq hi c A1) in V. change (len (@nil Z)) with 0. rewrite Z.pow_0_r. lia.
     + cbn [Nat.ltb Nat.leb]. exists (firstn (length b) c ++ hi), carry.
       assert (Lsk : length (skipn (length b) c) = O) by (rewrite skipn_length; lia).
       destruct (skipn (length b) c) eqn:Esk; [|discriminate]. cbn [length] in A1. destruct hi; [|discriminate].
@@ -501,17 +501,17 @@ Proof.
       assert (Wc1 : wfw c1) by (subst c1; apply wf_app; split; [apply wf_firstn; auto | auto]).
       assert (Vc1 : val c1 + carry * BB ^ len c = val c + carry_n * BB ^ Z.of_nat n).
       { subst c1. rewrite value_app, (firstn_skipn_val w n c). unfold len in *. rewrite firstn_length_le in * by lia.
-        rewrite skipn_length in V1. replace (length c) with (n + (length c - n))%nat at 2 by lia. rewrite pow_nat_add. nia. }
+        rewrite skipn_length in V1. replace (Z.of_nat (length c)) with (Z.of_nat (n + (length c - n))) by (f_equal; lia). rewrite pow_nat_add. nia. }
       destruct (Nat.leb_spec n (length a)) as [Hba|Hba].
       * destruct (Hrec c1 s a b ltac:(repeat split; auto; lia) ltac:(lia)) as (r & cf & E & Lr & Wr & V).
         rewrite E. exists r, (carry + cf). rewrite (len_eq c1 c Lc1) in V. repeat split; auto; try lia.
-        unfold len at 3. fold n. lia.
+        change (len b) with (Z.of_nat n). lia.
       * destruct (Nat.ltb_spec 0 (length a)) as [Ha0|Ha0].
         -- destruct (Hrec c1 s b a ltac:(repeat split; auto; lia) ltac:(lia)) as (r & cf & E & Lr & Wr & V).
            rewrite E. exists r, (carry + cf). rewrite (len_eq c1 c Lc1) in V. repeat split; auto; try lia.
-           unfold len at 3. fold n. lia.
+           change (len b) with (Z.of_nat n). lia.
         -- exists c1, carry. assert (length a = O) by lia. destruct a; [|discriminate]. cbn [value].
-           repeat split; auto. unfold len at 2. fold n. lia.
+           repeat split; auto. change (len b) with (Z.of_nat n). lia.
 Qed.
 
 Lemma split_into_chunks_ok (f rec_gen : mulfn) (chunk_len N : nat) c s a b :
